@@ -214,9 +214,12 @@ func kdeRecord(out io.Writer, args []string) error {
 			case 1:
 				return "lo", minx - gap(), 0
 			case 2:
-				return "hi", 0, maxx + 1 + gap()
+				return "hi", 0, maxx + int64(rng.Intn(2)) + gap() // possibly exactly the largest value
 			}
-			lo, hi := minx-gap(), maxx+1+gap()
+			lo, hi := minx-gap(), maxx+int64(rng.Intn(2))+gap()
+			if hi <= lo {
+				hi = lo + 1
+			}
 			for float64(hi-lo)*4 < hh { // keep the image count moderate
 				lo -= int64(hh/8) + 1
 				hi += int64(hh/8) + 1
